@@ -1,4 +1,92 @@
 /-
-  C04 — paths restored from a BFS result.  Property theorems only (filled in as proofs land).
+  C04 — paths restored from a BFS result (`restore_path`, `find_path_to`, `revert_path`, `find_path_from`;
+  cayley_graph.py:225-281).  Property theorems only; proofs in `CvProofs/Paths.lean`, the concrete 6-cycle used
+  in the non-vacuity examples in `CvProofs/PathsExample.lean`.
+
+  `PathHyp g gi` : `gi` is the inverted copy of `g` (same hasher, generator `i` of `gi` undoes generator `i` of `g`),
+                   hash collisions excluded.
+  `IsBall g c Hs`: `Hs[i]` is the sorted tensor of hashes of the distance class `i` around `c`.
+  `IsInvMap g m` : `m[i]` is the index of the generator undoing generator `i`.
 -/
-import CvModel.Paths
+import CvProofs.Paths
+import CvProofs.PathsExample
+set_option linter.unusedSectionVars false
+namespace Cv.C04
+open Cv Cv.PathsExample
+
+variable {α : Type} [DecidableEq α] {g gi : Graph α}
+
+/-- the reverse graph: walks in `gi` are reversed walks in `g` -/
+theorem walk_inv (h : PathHyp g gi) (n : Nat) (x y : α) : Walk gi.nb n y x ↔ Walk g.nb n x y := by
+  exact Cv.walk_inv h n x y
+-- non-vacuity: the 6-cycle and its inverted copy; a concrete walk 0 → 1 → 2 and its reversal
+example : PathHyp ex6 ex6i := ex6_hyp
+example : Walk ex6.nb 2 0 2 := path_walk ex6 0 [0, 0] (by decide)
+example : Walk ex6i.nb 2 2 0 := (walk_inv ex6_hyp 2 0 2).2 (path_walk ex6 0 [0, 0] (by decide))
+
+/-- walk/path bridge: a walk of `n` edges is a list of `n` valid generator indices replayed by `applyPath` -/
+theorem walk_iff_path (g : Graph α) (n : Nat) (a b : α) :
+    Walk g.nb n a b ↔ ∃ p : List Nat, p.length = n ∧ (∀ i ∈ p, i < g.nGens) ∧ applyPath g.act a p = b := by
+  exact Cv.walk_iff_path g n a b
+example : ([1, 1] : List Nat).length = 2 ∧ (∀ i ∈ [1, 1], i < ex6.nGens) ∧ applyPath ex6.act 0 [1, 1] = 4 := by decide
+
+/-- core: walking back through layers 0..k-1 from a state of class k yields a valid shortest path -/
+theorem restorePath_spec (h : PathHyp g gi) (c : α) (Hs : List (List Int)) (hb : IsBall g c Hs)
+    (q : α) (hq : DistLayer g.nb [c] Hs.length q) :
+    ∃ p, restorePath gi Hs q = some p ∧ p.length = Hs.length ∧ (∀ i ∈ p, i < g.nGens) ∧ applyPath g.act c p = q := by
+  exact Cv.restorePath_spec h c Hs hb q hq
+-- non-vacuity: the ball of depth 2 around 0 in the 6-cycle, restored from the antipode 3 (class 3)
+example : IsBall ex6 0 [[0], [1, 5], [2, 4]] := ex6_ball
+example : DistLayer ex6.nb [0] ([[0], [1, 5], [2, 4]] : List (List Int)).length 3 := ex6_dist3
+example : restorePath ex6i [[0], [1, 5], [2, 4]] 3 = some [0, 0, 0] ∧ applyPath ex6.act 0 [0, 0, 0] = 3 := by decide
+
+/-- find_path_to: a path iff the state is in layers 0..D; the path is valid and shortest; the assertion is unreachable -/
+theorem findPathTo_spec (h : PathHyp g gi) (c : α) (Hs : List (List Int)) (hb : IsBall g c Hs) (q : α) :
+    match findPathTo g gi Hs q with
+    | .found p => applyPath g.act c p = q ∧ DistLayer g.nb [c] p.length q ∧ p.length < Hs.length ∧ ∀ i ∈ p, i < g.nGens
+    | .notFound => ∀ i, i < Hs.length → ¬ DistLayer g.nb [c] i q
+    | .assertFail _ => False := by
+  exact Cv.findPathTo_spec h c Hs hb q
+-- non-vacuity: both non-failing outcomes occur on the 6-cycle (4 is in layer 2, 3 is outside the ball)
+example : findPathTo ex6 ex6i [[0], [1, 5], [2, 4]] 4 = .found [1, 1] := by decide
+example : findPathTo ex6 ex6i [[0], [1, 5], [2, 4]] 3 = .notFound := by decide
+example : applyPath ex6.act 0 [1, 1] = 4 ∧ DistLayer ex6.nb [0] ([1, 1] : List Nat).length 4 := ⟨by decide, ex6_dist2⟩
+-- the layers must be sorted (`isin_via_searchsorted`): on an unsorted layer the state is missed
+example : findPathTo ex6 ex6i [[0], [5, 1]] 1 = .notFound := by decide
+
+/-- `invMap` is a correct inverse map: see `Cv.IsInvMap` -/
+example : IsInvMap ex6 [1, 0] := ex6_invMap
+
+/-- reverting a valid path A→B gives a valid path B→A of the same length -/
+theorem revertPathM_spec (g : Graph α) (m : List Nat) (hm : IsInvMap g m) (p : List Nat) (hp : ∀ i ∈ p, i < g.nGens) (A : α) :
+    ∃ r, revertPathM (some m) p = some r ∧ r.length = p.length ∧ (∀ i ∈ r, i < g.nGens) ∧
+         applyPath g.act (applyPath g.act A p) r = A := by
+  exact Cv.revertPathM_spec g m hm p hp A
+example : (∀ i ∈ [1, 1, 0], i < ex6.nGens) ∧ revertPathM (some [1, 0]) [1, 1, 0] = some [1, 0, 0] ∧
+    applyPath ex6.act 2 [1, 1, 0] = 1 ∧ applyPath ex6.act 1 [1, 0, 0] = 2 := by decide
+-- without an inverse map (`generators_inverse_closed = False`) the code cannot revert
+example : revertPathM none [0] = none := rfl
+
+/-- find_path_from (inverse-closed generators): valid shortest path from the state to the central state -/
+theorem findPathFrom_spec (h : PathHyp g gi) (hic : g.invClosed = true) (m : List Nat) (hm : IsInvMap g m)
+    (c : α) (Hs : List (List Int)) (hb : IsBall g c Hs) (q : α) :
+    match findPathFrom g gi (some m) Hs q with
+    | .found p => applyPath g.act q p = c ∧ DistLayer g.nb [c] p.length q ∧ p.length < Hs.length
+    | .notFound => ∀ i, i < Hs.length → ¬ DistLayer g.nb [c] i q
+    | .assertFail _ => False := by
+  exact Cv.findPathFrom_spec h hic m hm c Hs hb q
+example : ex6.invClosed = true := rfl
+example : findPathFrom ex6 ex6i (some [1, 0]) [[0], [1, 5], [2, 4]] 4 = .found [0, 0] ∧
+    applyPath ex6.act 4 [0, 0] = 0 := by decide
+example : findPathFrom ex6 ex6i (some [1, 0]) [[0], [1, 5], [2, 4]] 3 = .notFound := by decide
+-- `hic` is needed: on a graph that is not inverse-closed the code trips its first assertion
+example : findPathFrom ex5 ex5i (some [0]) [[0]] 0 = .assertFail "generators_inverse_closed" := by decide
+
+/-- additionally: the returned path uses valid generator indices -/
+theorem findPathFrom_valid (h : PathHyp g gi) (hic : g.invClosed = true) (m : List Nat) (hm : IsInvMap g m)
+    (c : α) (Hs : List (List Int)) (hb : IsBall g c Hs) (q : α) (p : List Nat)
+    (hp : findPathFrom g gi (some m) Hs q = .found p) : ∀ i ∈ p, i < g.nGens := by
+  exact Cv.findPathFrom_valid h hic m hm c Hs hb q p hp
+example : findPathFrom ex6 ex6i (some [1, 0]) [[0], [1, 5], [2, 4]] 4 = .found [0, 0] := by decide
+
+end Cv.C04
